@@ -54,3 +54,19 @@ reg("C18", "C18", _c18, "exploration", {"quick": 1600, "thorough": 24000},
          "distinct = distinct (decade of radius_init, decade of the ratio, constants supplied, length bucket) resp. world "
          "signatures",
     reach=["c18.iters", "c18.e_checked", "c18.f_checked", "radius.ops_enhance"])
+
+
+def _c10(seed, idx, tier):
+    from . import pairs
+    return pairs.c10_case(seed, idx, tier)
+
+
+reg("C10", "C10", _c10, "exploration", {"quick": 2400, "thorough": 36000},
+    rule="even cases: a seeded statement and one applicable syntactic restatement of it (bounds form, dict vs "
+         "NonlinearConstraint, two-sided vs two one-sided, regrouping rows) run under one fault plan, traces compared "
+         "bitwise; odd cases: a statement with fixed variables and/or scale=True: faithfulness of the solver's internal "
+         "linear data at 20 random points + the explicitly restated problem built from the solver's own internal arrays "
+         "must give a bitwise identical trace and result. evaluations counts worlds (2-3 per pair); distinct = distinct "
+         "world signatures",
+    reach=["c10.pairs_split_linear", "c10.pairs_split_nonlinear", "c10.pairs_dict_vs_nlc", "c10.pairs_regroup_linear",
+           "c10.semantic_scale", "c10.semantic_fixed", "c10.semantic_scale+fixed"])
